@@ -397,6 +397,10 @@ def spans_of(word, sp, Tb, summ):
 
 
 def replay(d):
+    if d['input'].get('claim') in ('lexical', 'lexical_set'):
+        from . import c03lex
+        boot.load_plain()
+        return c03lex.replay(d) if d['input']['claim'] == 'lexical' else c03lex.replay_set(d)
     p, Tb, G, summ, sp, ref = build()
     _ENGINE['p'] = p
     w = d['input']
@@ -552,6 +556,11 @@ def main():
             run.violation('nonterminal %s %s: %s' % (r['nt'], 'accepts more' if r['dir'] == 'A' else 'accepts less', ' '.join(r['word'])), detail[:500], rpd)
         else:
             nt_stats['grammar_level_only'].append('%s: %s' % (r['nt'], ' '.join(r['word'])))
+    # leg L: token languages vs the ES5 lexical grammar (z3 regular-language queries)
+    from . import c03lex
+    lex_st = c03lex.run_leg(run)
+    tot_q += lex_st['queries']
+    tot_solve += lex_st['solver_s']
     run.leg('per_nonterminal', **{k: (v if not isinstance(v, list) else v[:10]) for k, v in nt_stats.items()})
     # validation of LR-SAT against the real engine on the enumerated accepted strings (prediction == engine)
     val = _validate(Tb, G, summ, sp, ref, 3 if not th else 4)
@@ -566,9 +575,11 @@ def main():
                            tot_q, len(Tb.terms), len(G.prods), len(Tb.action)),
         'queries': tot_q, 'solver_s': round(tot_solve, 1),
         'bounds': {'acceptance': 'all token strings of length <= %d (both directions)' % NA, 'per_nonterminal': '%d corresponding non-terminal pairs, phrases of length <= %d' % (len(pairs), NN), 'tree': 'all token strings of length <= %d accepted by both' % NT,
-                   'outside': 'longer sentences; lexical grammar and lexer feedback (C05/C06); early errors'},
+                   'lexical': 'token languages of ID, NUMBER, STRING, REGEX and both comment kinds vs ES5 clause 7: regular-language equivalence, strings of any length; Annex B forms not judged',
+                   'outside': 'longer sentences; lexer feedback (C04/C05) and the priority/longest-match interplay of the master pattern (C06); contextual get/set; early errors'},
         'functions_encoded': ['ply LALR tables generated from the p_* docstrings of calmjs/parse/parsers/es5.py@%s' % boot.source_hash('calmjs/parse/parsers/es5.py'),
-                              'all %d p_* actions (node kinds by execution)' % len(summ), 'ref/es5_syntactic.gram (%d productions)' % len(ref.prods)],
+                              'all %d p_* actions (node kinds by execution)' % len(summ), 'ref/es5_syntactic.gram (%d productions)' % len(ref.prods),
+                              'Lexer.identifier, t_NUMBER, string, t_regex_REGEX, t_LINE_COMMENT, t_BLOCK_COMMENT, keywords_dict, t_ignore, punctuator rules of calmjs/parse/lexers/es5.py@%s' % boot.source_hash('calmjs/parse/lexers/es5.py'), 'ref/es5_lexical.py'],
         'productionerror_side_condition': [(Tb.prods[n][0], k) for n, k in raising],
         'labels_not_compared': list(SKIP_LABELS),
         'engine_validation': {k: v for k, v in val.items() if k != 'mismatch'},
